@@ -97,7 +97,7 @@ man = {
  'setup_cmd': 'cd harness && CARGO_NET_OFFLINE=true cargo build --release && CARGO_NET_OFFLINE=true cargo build --release --features hfs --target-dir target-hfs',
  'hooks': {
    'guard': 'cargo feature verif-hooks (off by default)',
-   'enable': 'the harness depends on snow by path ../../repo with features use-p256 use-xchacha20poly1305 ring-resolver verif-hooks',
+   'enable': 'the harness depends on snow by path ../../repo with features use-p256 use-xchacha20poly1305 ring-resolver verif-hooks (the hook) and risky-raw-split (an upstream feature that exposes dangerously_get_raw_split, used as one more observation point)',
    'baseline_off_cmd': 'cd /repo && cargo test --workspace --no-fail-fast --offline',
    'source_commits': ['090cda1'],
    'add_only': True,
